@@ -311,7 +311,7 @@ def add_or_replace_by_membership(ctx, rule):
 
 
 def run(ctx):
-    ctx.rule('R11.9', 'add vs replace of one key is decided by membership of the key in the base object', floor=3)
+    ctx.rule('R11.9', 'add vs replace of one key is decided by membership of the key in the base object', floor=2)
     ctx.rule('R11.7', 'the differs and diff utilities never test a diff key by truthiness', floor=8)
     _run_base(ctx)
     from ..keys import key_truthiness
